@@ -179,6 +179,9 @@ def extra_cases():
                     ops = ["new %s%s nk=%d" % (ty, flags, nk)] + (["insk"] if first else []) + ["ins %d" % k for k in b] + ([] if first else ["insk"])
                     cases.append(ops + ["shape", "getn", "get %d" % nk, "each 0", "remn", "shape", "getn", "remn", "each 0", "inskv", "getn", "each 3", "free"])
                     cases.append(ops + ["rem %d" % nk, "shape", "getn", "insk", "ins %d" % nk, "each 0", "shape", "remn", "clear", "getn", "free"])
+            # creation while the allocator is out of memory: NULL; the old tree is gone, the next creation works
+            cases.append(["new %s%s" % (ty, flags), "ins 1", "ins 2", "newf %s%s" % (ty, flags), "count", "ins 3", "new %s%s" % (ty, flags), "ins 3", "shape", "count", "each 0", "free"])
+            cases.append(["newf %s%s" % (ty, flags), "ins 1", "free", "new %s%s" % (ty, flags), "ins 1", "count", "newf %s%s wide" % (ty, flags), "new %s%s" % (ty, flags), "count", "ins 2", "shape", "clear"])
             # allocation failure on the empty tree and right after clear
             cases.append(["new %s%s" % (ty, flags), "insf 1", "shape", "count", "each 0", "ins 1", "insf 1", "insf 2", "shape", "clear", "insf 3", "shape", "ins 3", "free"])
         # every stop point of a traversal of a 15- and a 31-node tree (threads at several depths are live when it stops)
@@ -223,6 +226,39 @@ def null_cases():
     return cases
 
 
+def witness_cases():
+    """rebalancing cases in their contexts (tools/props/tree_witnesses.ops, chosen by tools/treecases.py): every rotation call
+    site of the red-black / AVL fix-up loops with the rotated node at the root, as a left and as a right child, with and
+    without an inner subtree, for every balance factor of the nodes involved; every pair of consecutive loop iterations that
+    the audit saw; every kind of unlinked node followed by every first fix-up step.  The seeded random sequences reach
+    these too, but which of them a given seed reaches is luck; these cases run in every quick run."""
+    import os
+    path = os.path.join(os.path.dirname(os.path.abspath(__file__)), "tree_witnesses.ops")
+    cases, cur = [], []
+    shift = 100          # room below the smallest key for the tail
+    def sh(o):
+        w = o.split()
+        return "%s %d" % (w[0], int(w[1]) + shift) if len(w) == 2 and w[0] in ("ins", "rem") else o
+    for ln in open(path).read().split("\n") + [""]:
+        ln = ln.strip()
+        if ln.startswith("#"):
+            continue
+        if not ln:
+            if cur:
+                i = len(cases)
+                keys = [int(o.split()[1]) + shift for o in cur[1:] if o.startswith("ins ")]
+                # tail: growth below, above and inside the key range and a few removals, so that a balance factor / colour left
+                # wrong by the case under test has consequences the independent oracles of `shape` can see
+                mid = sorted(set(keys))[len(set(keys)) // 2]
+                tail = ["ins %d" % k for k in (99, 98, 97, 400, 401, 402)] + ["rem %d" % k for k in keys[:3]] + ["ins %d" % mid, "ins 96", "ins 403", "rem 98", "rem 401"]
+                ops = [cur[0]] + [x for o in [sh(o) for o in cur[1:]] + tail for x in (o, "shape")]
+                cases.append(ops + ["each 0", "each %d" % (1 + i % 5), "shape", "count"] + (["clear", "shape"] if i % 2 == 0 else ["free"]))
+            cur = []
+            continue
+        cur.append(ln)
+    return cases
+
+
 def run(chk, prop, view, modules, label):
     cfg = pv.repo_config()
     proof_ok, driver_ok, detail = pv.proof_stage(chk, modules)
@@ -231,10 +267,11 @@ def run(chk, prop, view, modules, label):
     fam.keep_prefix = 1      # the `new …` line is the case's configuration, never shrunk away
     thorough = chk.tier == "thorough"
     rng = chk.rng
-    cases = pv.load_corpus("trees") + pv.load_corpus(prop) + null_cases() + oom_cases() + extra_cases()
+    cases = pv.load_corpus("trees") + pv.load_corpus(prop) + null_cases() + oom_cases() + extra_cases() + witness_cases()
     ex = list(exhaustive_seqs(4 if thorough else 3))
     nk = 5 if thorough else 4
     exo = list(exhaustive_orders(nk))
+    chk.cov["directed_rebalancing_witnesses"] = len(witness_cases())
     chk.cov["exhaustive_small_scope"] = {"op_sequences_depth": 4 if thorough else 3, "keys": 4, "sequences": len(ex),
                                          "insertion_x_removal_orders_keys": nk, "orders": len(exo)}
     nr = 1500 if thorough else 200
